@@ -306,6 +306,20 @@ func mustMkDir(dir string) string {
 	return dir
 }
 
+// mkTmpDir makes the intermediate output dir of the rewriting stage
+func mkTmpDir(dir string) string {
+	if runningWithGoTest {
+		return mustMkDir(dir + "_tmp") // kept for inspecting
+	}
+	// 1. inside dir, so in the same module even though dir is the module root
+	// 2. leading underscore, so ignored by pattern ./... when loading dir
+	// 3. unique, so never clash with (then remove) an existing dir
+	dir = mustMkDir(dir)
+	tmp, err := os.MkdirTemp(dir, "_co_tmp")
+	panicIf(err)
+	return tmp
+}
+
 func panicIf(err error) {
 	if err != nil {
 		panic(err)
